@@ -103,6 +103,21 @@ def checksFor (e : Exp) (args : List Int) : List Out :=
   (List.range args.length).flatMap fun p =>
     (e.cons.filter (·.param == p)).map fun c => Out.check (some e.id) (c.op.holds (args.getD p 0) c.val)
 
+/-- A clause of the expectation names a parameter the mock does not pass (`constraint_is_for_parameter_in` fails):
+the call reports that once, applies no clause, and is not counted as triggered — but the expectation is used up
+like by any other call. -/
+def Exp.unknownParam (e : Exp) (args : List Int) : Bool := e.cons.any (fun c => decide (args.length ≤ c.param))
+
+/-- What a call does to the expectation that serves it. -/
+def Exp.served (bad : Bool) (x : Exp) : Exp :=
+  { x with called := if x.times.isSome then x.called + 1 else x.called,
+           triggered := if bad then x.triggered else x.triggered + 1,
+           ttl := if x.isAlways then x.ttl else x.ttl - 1 }
+
+/-- What a call reports against the expectation that serves it. -/
+def reportFor (e : Exp) (args : List Int) : List Out :=
+  if e.unknownParam args then [.check (some e.id) false] else checksFor e args
+
 /-- `mock_()`. -/
 def call (s : MState) (f : Nat) (args : List Int) : MState × List Out :=
   match findExp f s.q with
@@ -111,12 +126,9 @@ def call (s : MState) (f : Nat) (args : List Int) : MState × List Out :=
     if e.isNever then
       ({ s with q := modifyFirst f (fun x => { x with triggered := x.triggered + 1 }) s.q }, [.check (some e.id) false, .ret 0])
     else
-      let upd : Exp → Exp := fun x =>
-        { x with called := if x.times.isSome then x.called + 1 else x.called, triggered := x.triggered + 1,
-                 ttl := if x.isAlways then x.ttl else x.ttl - 1 }
-      let q1 := modifyFirst f upd s.q
+      let q1 := modifyFirst f (Exp.served (e.unknownParam args)) s.q
       let q2 := if !e.isAlways && e.ttl - 1 ≤ 0 then removeFirst f q1 else q1
-      ({ s with q := q2 }, checksFor e args ++ [.ret e.ret])
+      ({ s with q := q2 }, reportFor e args ++ [.ret e.ret])
 
 /-- What `trigger_unfulfilled_expectations` reports for one pending expectation. -/
 def tallyOne (e : Exp) : List Out :=
@@ -179,11 +191,10 @@ def callS : Nat → MState → Nat → List Int → MState × List Out
       else match e.side with
         | none => call s f args
         | some (g, gargs) =>
+          if e.unknownParam args then call s f args      -- no clause is applied, so no side effect runs either
+          else
           let nested := callS fuel s g gargs
-          let upd : Exp → Exp := fun x =>
-            { x with called := if x.times.isSome then x.called + 1 else x.called, triggered := x.triggered + 1,
-                     ttl := if x.isAlways then x.ttl else x.ttl - 1 }
-          let q1 := modifyFirst f upd nested.1.q
+          let q1 := modifyFirst f (Exp.served false) nested.1.q
           let q2 := if !e.isAlways && e.ttl - 1 ≤ 0 then removeFirst f q1 else q1
           ({ nested.1 with q := q2 }, checksFor e args ++ nested.2.filter isCheck ++ [.ret e.ret])
 
@@ -237,6 +248,7 @@ def specCallS : Nat → SState → Nat → List Int → SState × List Out
       else match e.side with
         | none => specStep s (.call f args)
         | some (g, gargs) =>
+          if e.unknownParam args then specStep s (.call f args) else
           let r1 := specCallS fuel s g gargs
           let r2 := specStep r1.1 (.call f args)
           (r2.1, r2.2.dropLast ++ r1.2.filter isCheck ++ r2.2.getLast?.toList)
